@@ -112,7 +112,7 @@ class RemPlugin(PrimitiveLeafPlugin):
 
         aval = getattr(x_var, "aval", None)
         dtype: np.dtype[Any] = np.dtype(getattr(aval, "dtype", np.float32))
-        out_shape = tuple(getattr(aval, "shape", ()))
+        out_shape = tuple(getattr(getattr(out_var, "aval", None), "shape", ()))
 
         x_dtype_enum = getattr(getattr(x_val, "type", None), "dtype", ir.DataType.FLOAT)
 
@@ -132,7 +132,6 @@ class RemPlugin(PrimitiveLeafPlugin):
                 ),
             )
             result.type = ir.TensorType(x_dtype_enum)
-            result.shape = ir.Shape(out_shape)
             _stamp_type_and_shape(result, out_shape)
             _ensure_value_metadata(ctx, result)
             ctx.bind_value_for_var(out_var, result)
@@ -147,7 +146,6 @@ class RemPlugin(PrimitiveLeafPlugin):
             ),
         )
         div_val.type = ir.TensorType(x_dtype_enum)
-        div_val.shape = ir.Shape(out_shape)
         _stamp_type_and_shape(div_val, out_shape)
         _ensure_value_metadata(ctx, div_val)
 
@@ -160,7 +158,6 @@ class RemPlugin(PrimitiveLeafPlugin):
             ),
         )
         mul_val.type = ir.TensorType(x_dtype_enum)
-        mul_val.shape = ir.Shape(out_shape)
         _stamp_type_and_shape(mul_val, out_shape)
         _ensure_value_metadata(ctx, mul_val)
 
@@ -173,7 +170,6 @@ class RemPlugin(PrimitiveLeafPlugin):
             ),
         )
         result.type = ir.TensorType(x_dtype_enum)
-        result.shape = ir.Shape(out_shape)
         _stamp_type_and_shape(result, out_shape)
         _ensure_value_metadata(ctx, result)
         ctx.bind_value_for_var(out_var, result)
